@@ -8,6 +8,8 @@ import (
 	"strings"
 	"sync"
 	"testing"
+	"time"
+	"verif/harness/internal/simul"
 
 	"github.com/hashicorp/eventlogger"
 	"pgregory.net/rapid"
@@ -78,5 +80,32 @@ func TestC14ConcurrentFormatters(t *testing.T) {
 		}
 		cl := []string{fmt.Sprintf("earlier_failures=%d", failures)}
 		sec.Case(failures >= 1 && g >= 4, d, cl...)
+	})
+}
+
+// TestC14FirstWriters: the very first FormattedAs calls on an Event whose table does not exist yet, made at the
+// same instant by several goroutines for different keys: nobody's write may be lost.
+func TestC14FirstWriters(t *testing.T) {
+	sec := stats.Sec("first_writers", "rapid: 2-8 goroutines released through a spin barrier each make the first FormattedAs call (own key) on a fresh Event whose format table is nil, 200-1000 rounds per case; built with -race; oracle = afterwards Format returns every goroutine's value; non-trivial = >=4 goroutines; distinct = configuration")
+	rapid.Check(t, func(t *rapid.T) {
+		g := rapid.IntRange(2, 8).Draw(t, "goroutines")
+		rounds := rapid.SampledFrom([]int{200, 1000}).Draw(t, "rounds")
+		for r := 0; r < rounds; r++ {
+			ev := &eventlogger.Event{}
+			fs := make([]func(), g)
+			for i := range fs {
+				i := i
+				fs[i] = func() { ev.FormattedAs(fmt.Sprintf("k%d", i), []byte(fmt.Sprintf("v%d", i))) }
+			}
+			if !simul.Burst(20*time.Second, fs...) {
+				t.Fatalf("VIOLATION C14: FormattedAs did not return")
+			}
+			for i := 0; i < g; i++ {
+				if v, ok := ev.Format(fmt.Sprintf("k%d", i)); !ok || string(v) != fmt.Sprintf("v%d", i) {
+					t.Fatalf("VIOLATION C14: the value written under %q by one of %d simultaneous first writers is gone: Format = (%q,%v) (round %d)", fmt.Sprintf("k%d", i), g, v, ok, r)
+				}
+			}
+		}
+		sec.Case(g >= 4, fmt.Sprintf("goroutines=%d rounds=%d", g, rounds), fmt.Sprintf("goroutines=%d", g))
 	})
 }
